@@ -89,7 +89,7 @@ func (d DID) PubKey() (crypto.PubKey, error) {
 		P256:      ecdsaPubKeyUnmarshaler(elliptic.P256()),
 		P384:      ecdsaPubKeyUnmarshaler(elliptic.P384()),
 		P521:      ecdsaPubKeyUnmarshaler(elliptic.P521()),
-		Secp256k1: crypto.UnmarshalSecp256k1PublicKey,
+		Secp256k1: secp256k1PubKeyUnmarshaller,
 		RSA:       rsaPubKeyUnmarshaller,
 	}[d.code]
 	if !ok {
@@ -126,6 +126,16 @@ func ecdsaPubKeyUnmarshaler(curve elliptic.Curve) crypto.PubKeyUnmarshaller {
 
 		return crypto.UnmarshalECDSAPublicKey(pkix)
 	}
+}
+
+// secp256k1PubKeyUnmarshaller only accepts the compressed form that did:key
+// specifies (and that FromPubKey emits): the underlying parser also reads
+// uncompressed and hybrid encodings, which would give one key several DIDs.
+func secp256k1PubKeyUnmarshaller(data []byte) (crypto.PubKey, error) {
+	if len(data) != 33 {
+		return nil, fmt.Errorf("secp256k1 public key must be in compressed form (33 bytes), got %d bytes", len(data))
+	}
+	return crypto.UnmarshalSecp256k1PublicKey(data)
 }
 
 func rsaPubKeyUnmarshaller(data []byte) (crypto.PubKey, error) {
